@@ -212,12 +212,19 @@ def render(spec, dst):
             # a path configuration with its own folder vocabulary: a complete module of its own
             vs = variant_for(spec, pc)
             vt, vm, vd = path_tables(vs)
-            lines = ["from spil_sid_conf import key_patterns", "from pathlib import Path",
+            head = ["from spil_sid_conf import key_patterns", "from pathlib import Path"]
+            copy_line = "key_patterns = {k: dict(v) for k, v in key_patterns.items()}"
+            if pc.get("style") == "demo":
+                # written the way the demo writes its second configuration: everything star-imported from the first one, the
+                # pattern table copied one level deep (so the groups are shared with the module it came from), then updated
+                head = ["from %s import *  # noqa" % path_configs[names[0]], "from pathlib import Path"]
+                copy_line = "key_patterns = key_patterns.copy()  # noqa"
+            lines = head + [
                      "project_root_path = Path(__file__).parent / 'data' / 'testing' / 'SPIL_PROJECTS' / %r / 'PROJECTS'" % root_of(pc),
                      "path_templates = {"] + ["    %r: %r," % (k, v) for k, v in vt.items()] + ["}",
                      "path_templates = {k: v.replace('{@root}', project_root_path.as_posix()) for k, v in path_templates.items()}",
                      "path_defaults = %r" % vd, "sidkeys_to_extrakeys = {}", "extrakeys_to_sidkeys = {}", "path_mapping = %r" % vm,
-                     "search_path_mapping = {}", "key_patterns = {k: dict(v) for k, v in key_patterns.items()}",
+                     "search_path_mapping = {}", copy_line,
                      "key_patterns['__'].update({%r: %r})" % ("{%s}" % skey, "{%s:%s}" % (skey, closed(list(vs["state"]["values"].values())))),
                      "key_patterns[''].update({%r: %r})" % ("{%s}" % P, "{%s:%s}" % (P, closed(list(vs["projects"].values()))))]
             for b in vs["basetypes"]:
@@ -415,6 +422,13 @@ def op_third_path_config(s):
     return s
 
 
+def op_third_path_config_demo_style(s):
+    """The third path configuration (own vocabulary) written in the style of the demo's second one (star import, shallow copy)."""
+    s = op_third_path_config(s)
+    s["path_configs"]["archive"]["style"] = "demo"
+    return s
+
+
 def op_default_not_first(s):
     """The default path configuration is not the first one listed."""
     s = copy.deepcopy(s)
@@ -433,7 +447,8 @@ OPERATORS = [("rename-keys", op_rename_keys), ("rename-basetypes", op_rename_bas
              ("rename-leaf-key", op_rename_leaf_key), ("insert-level", op_insert_level), ("remove-level", op_remove_level),
              ("separator", op_separator), ("folders", op_folders), ("vocabularies", op_vocabularies), ("digit-patterns", op_digits),
              ("third-basetype", op_third_basetype), ("third-path-config", op_third_path_config),
-             ("explicit-levels", op_explicit_levels), ("default-not-first", op_default_not_first)]
+             ("explicit-levels", op_explicit_levels), ("default-not-first", op_default_not_first),
+             ("third-path-config-demo-style", op_third_path_config_demo_style)]
 
 
 def family(tier):
@@ -443,8 +458,8 @@ def family(tier):
         out[n] = f(DEMO)
     allspec = DEMO
     for n, f in OPERATORS:
-        if n == "remove-level":
-            continue  # insert + remove on the same basetype is covered by pairs
+        if n in ("remove-level", "third-path-config-demo-style"):
+            continue  # insert + remove on the same basetype is covered by pairs; the third configuration keeps its own module there
         allspec = f(allspec)
     out["all-together"] = allspec
     if tier == "thorough":
